@@ -66,6 +66,9 @@ func ParseSummary(out string) (*Summary, error) {
 			continue
 		}
 	}
+	// Clean visits directories in Go map order: the lists are compared as sets
+	sort.Strings(s.Files)
+	sort.Strings(s.Tests)
 	if n, ok := declared["file"]; ok && n != len(s.Files) {
 		return s, fmt.Errorf("summary announces %d obsolete files but lists %d", n, len(s.Files))
 	}
